@@ -103,7 +103,26 @@ def class_of_first_record_ne(pred: T) -> Optional[T]:
     return None
 
 
+def request_isolation(repo: Repo, run: Run) -> None:
+    """Every request builds a fresh KdBufParser over the facade's own thread/process tables; what an earlier request (or the
+    decoders it ran) left in them is wiped because installing the dump's thread map clears both tables first, unconditionally,
+    and never rebinds them (C02/R4).  That is a necessary condition of "repeating a request gives the same output"."""
+    from . import c02
+    probe = Run("C02", run.tier, run.repo_root)
+    c02.check(repo, probe)
+    n = 0
+    for o in probe.obligations:
+        if o["rule"] == "R4" and ("cleared before any store" in o["construct"] or "never rebound" in o["construct"]
+                                  or "before the first yield" in o["construct"]):
+            n += 1
+            run.ob("R0", o["module"], o["scope"], f"request isolation (C02/R4): {o['construct']}", o["ok"],
+                   (o.get("what", "") + " - entries learned while serving one request survive into the next request on the "
+                    "same parser object, whose output then differs from the first") if not o["ok"] else "", nontrivial=False)
+    run.floor("R0", "table-reset obligations taken over from C02", n, 3)
+
+
 def check(repo: Repo, run: Run) -> None:
+    request_isolation(repo, run)
     interp = sym.Interp(repo)
     ci = repo.cls("pykdebugparser", "PyKdebugParser")
     pk = ci.module
@@ -192,7 +211,7 @@ def check(repo: Repo, run: Run) -> None:
         body = pipeline.resolve_predicate(repo, interp, ci, s.fn)
         if body is None:
             raise AnalysisError(f"traces(): event predicate not recognised: {sym.pretty(s.fn)[:80]}")
-        nb = N(body)
+        nb = N(normal.expand_membership(rec, body))
         cj = pipeline.conjuncts(s.cond)
         if nb == N(T("not", (T("call", (T("builtin", ("isinstance",)),
                                        (X, T("class", ("pykdebugparser.os_log_event.OsLogEvent",))), ())),))):
